@@ -2,6 +2,7 @@ package avro
 
 import (
 	"fmt"
+	"math"
 	"reflect"
 	"unsafe"
 )
@@ -31,6 +32,13 @@ func (rc *arrayCodec) Read(r *ReadBuf, p unsafe.Pointer) error {
 			if _, err := r.Varint(); err != nil {
 				return fmt.Errorf("failed to read block size for array. %w", err)
 			}
+		}
+
+		if count < 0 || count > math.MaxInt-int64(sh.Len) {
+			// -count overflowed, or Len+count would: resizeSlice would see a
+			// negative total, keep the slice as it is, and the loop below would
+			// write past its end.
+			return fmt.Errorf("array block count %d out of range", count)
 		}
 
 		// If our array is nil or undersized then we can fix it up here.
